@@ -226,6 +226,8 @@ def step (st : St) (line : String) : St × String :=
     let cancelled := isCancel && out.startsWith "cancelled"
     let out := if isCancel then (out.splitOn " polls=").headD out else out
     let out := if cancelled then "ok" else out
+    -- (`@nodrain` on a write only tells the harness not to wait for the worker: the same write for the oracle)
+    let toksAll := if toksAll.head? == some "w" && toksAll.getLast? == some "@nodrain" then toksAll.dropLast else toksAll
     match (if isCancel then toksAll.drop 2 else toksAll) with
     | "cfg" :: toks => ({ allowDup := toks.any (· == "dup=1") }, "ok")
     | "restart" :: _ => ({ st with restarted := true }, "ok")
